@@ -33,6 +33,11 @@ impl SeqGroup {
     }
 
     pub fn apply_range(&mut self, start: u64, len: u64) {
+        // a range below what was already applied (its reply was overtaken by the replies of later
+        // requests) is dropped: ids are never handed out backwards
+        if start < self.range_a.start + self.range_a.len || start < self.range_b.start + self.range_b.len {
+            return;
+        }
         // the buffer in use must keep holding the smaller ids: if it is exhausted,
         // switch to the other one first, then refill the buffer that is not in use
         let current_has_next = if self.use_a {
